@@ -120,3 +120,20 @@ def export_bytes(ctx, obj):
     f = new_file(ctx)
     obj.export(f)
     return f.getvalue()
+
+
+def mod_hashes():
+    import importlib
+    return importlib.import_module("probables.hashes")
+
+
+def blob_eq(ctx, a, b):
+    """a == b for two exported blobs.  Symbolic blobs with the same cell structure are compared cell by cell (comparing
+    the bytes of a symbolic 32/64-bit cell would put div/mod terms into the query for no gain)."""
+    if hasattr(a, "chunks") and hasattr(b, "chunks"):
+        if len(a) != len(b):
+            return False
+        if [(n, be) for _, n, be in a.chunks] == [(n, be) for _, n, be in b.chunks]:
+            return ctx.and_([ctx.eq(x[0], y[0]) for x, y in zip(a.chunks, b.chunks)])
+        return ctx.and_([ctx.eq(x, y) for x, y in zip(a.byte_list(), b.byte_list())])
+    return bytes(a) == bytes(b)
